@@ -28,7 +28,7 @@ theorem findKey_lookup : ∀ (l : List (Str × Tree)) (k : Str) (i : Nat),
       cases hf : findKey k l (i + 1) with
       | none => simp
       | some j =>
-        have := (findKey_some l k (i + 1) j hf).1
+        have := (findKey_someZ l k (i + 1) j hf).1
         simp only [Option.map_some, Option.some.injEq]
         have e : j - i = (j - (i + 1)) + 1 := by omega
         rw [e]; simp
@@ -97,7 +97,7 @@ def fkTo (fkv : List (Str × Tree)) (q : Str × Tree) : Nat :=
 
 theorem kvpScript_cost (C : Tree → Tree → Nat) (p q : Str × Tree) (cell : Script) (h : cell.cost = C p.2 q.2) :
     (kvpScript p.1 q.1 (p.2.eq q.2) cell).cost = kvpCost C p q := by
-  simp only [kvpScript, mkCompound_cost, sumCosts_cons, sumCosts_nil, relabel_cost, kvpCost, Nat.add_zero]
+  simp only [kvpScript, mkCompound_costZ, sumCosts_consZ, sumCosts_nilZ, relabel_cost, kvpCost, Nat.add_zero]
   congr 1
   · split <;> rfl
   · split
@@ -133,7 +133,7 @@ theorem fkScript_cost_eq (C : Tree → Tree → Nat) (fkv tkv : List (Str × Tre
     (hC : ∀ i j, i < fkv.length → j < tkv.length →
       ((vtbl.getD i []).getD j (mkMatch 0)).cost = C (fkv.getD i dKV).2 (tkv.getD j dKV).2) :
     (fkScript fkv tkv vtbl).cost = (fkv.map (fkFrom C tkv)).sum + (tkv.map (fkTo fkv)).sum := by
-  simp only [fkScript, mkCompound_cost, sumCosts_append, sumCosts_filterMap, sum_map_add]
+  simp only [fkScript, mkCompound_costZ, sumCosts_appendZ, sumCosts_filterMap, sum_map_add]
   congr 1
   · rw [← map_range_getD fkv dKV (fkFrom C tkv)]
     congr 1
